@@ -18,6 +18,7 @@ node the out-edge label on which the *pattern as written* (which may itself be n
 from __future__ import annotations
 
 import ast
+import copy
 from typing import Dict, Iterator, List, Optional, Tuple
 
 from .cfg import polarity, walk_local
@@ -202,6 +203,69 @@ class _Subst(ast.NodeTransformer):
         return r
 
 
+def is_plain_path(e: ast.AST) -> bool:
+    """a name, or attribute / constant-subscript path from a name (no calls: evaluating it twice is the same value)"""
+    while isinstance(e, (ast.Attribute, ast.Subscript)):
+        if isinstance(e, ast.Subscript) and not isinstance(e.slice, ast.Constant):
+            return False
+        e = e.value
+    return isinstance(e, ast.Name)
+
+
+def canon_strings(e: ast.AST) -> ast.AST:
+    """One spelling for string building: `a + "x" + str(b)` chains that contain a string literal become the f-string
+    f"{a}x{b}" (and `str(v)` inside an f-string is `{v}`), so that both spellings compare equal as text."""
+
+    def parts(x) -> Optional[list]:
+        if isinstance(x, ast.BinOp) and isinstance(x.op, ast.Add):
+            l, r = parts(x.left), parts(x.right)
+            return None if l is None or r is None else l + r
+        if isinstance(x, ast.Constant) and isinstance(x.value, str):
+            return [x]
+        if isinstance(x, ast.JoinedStr):
+            out = []
+            for v in x.values:
+                if isinstance(v, ast.FormattedValue) and v.conversion == -1 and v.format_spec is None:
+                    out.append(_unstr(v.value))
+                else:
+                    out.append(v)
+            return out
+        if isinstance(x, ast.AST):
+            return [_unstr(x)]
+        return None
+
+    def _unstr(v):
+        if isinstance(v, ast.Call) and isinstance(v.func, ast.Name) and v.func.id == "str" and len(v.args) == 1 and not v.keywords:
+            return v.args[0]
+        return v
+
+    class T(ast.NodeTransformer):
+        def visit_BinOp(self, node):
+            ps = parts(node) if isinstance(node.op, ast.Add) else None
+            if ps is not None and any(isinstance(p_, ast.Constant) and isinstance(p_.value, str) for p_ in ps):
+                return self._build(ps, node)
+            return self.generic_visit(node)
+
+        def visit_JoinedStr(self, node):
+            return self._build(parts(node), node)
+
+        def _build(self, ps, node):
+            vals = []
+            for p_ in ps:
+                if isinstance(p_, ast.Constant) and isinstance(p_.value, str):
+                    if vals and isinstance(vals[-1], ast.Constant):
+                        vals[-1] = ast.Constant(value=vals[-1].value + p_.value)
+                    else:
+                        vals.append(ast.Constant(value=p_.value))
+                elif isinstance(p_, ast.FormattedValue):
+                    vals.append(p_)
+                else:
+                    vals.append(ast.FormattedValue(value=self.visit(copy.deepcopy(p_)), conversion=-1, format_spec=None))
+            return ast.fix_missing_locations(ast.copy_location(ast.JoinedStr(values=vals), node))
+
+    return T().visit(copy.deepcopy(e))
+
+
 def single_defs(func: ast.AST) -> Dict[str, ast.AST]:
     """local name -> defining expression, for locals bound exactly once in the function by a plain assignment
     (`x = e`, `x: T = e`, `(x := e)`); parameters, loop / with / except / unpacking targets are never expanded."""
@@ -234,6 +298,10 @@ def single_defs(func: ast.AST) -> Dict[str, ast.AST]:
                     reads = {x.id for v in n.value.elts for x in ast.walk(v) if isinstance(x, ast.Name)}
                     for x, v in zip(t.elts, n.value.elts):
                         bind(x.id, v if not (lhs & reads) else None)
+                elif isinstance(t, ast.Tuple) and len(n.targets) == 1 and all(isinstance(x, ast.Name) for x in t.elts) and is_plain_path(n.value) and not ({x.id for x in t.elts} & {x.id for x in ast.walk(n.value) if isinstance(x, ast.Name)}):
+                    # `a, b, c = seq` (seq a plain name / attribute path): a is seq[0], ...
+                    for k_, x in enumerate(t.elts):
+                        bind(x.id, ast.copy_location(ast.Subscript(value=copy.deepcopy(n.value), slice=ast.Constant(value=k_), ctx=ast.Load()), n.value))
                 else:
                     for x in ast.walk(t):
                         if isinstance(x, ast.Name) and isinstance(x.ctx, ast.Store):
